@@ -101,10 +101,13 @@ static inline void c16_mk_blob(int len, const uint8_t *content, const struct c16
     sv->bytes = content; sv->len = len;
 }
 
-/* array header through the public setters */
+/* array header through the public setters. The 8 bytes the header is packed into start as zero (the padding
+ * bytes 1..3 are then concrete: with arbitrary padding CBMC no longer sees a constant length after the setters'
+ * union round trip, the element loop bound becomes symbolic and the run does not finish); bytes 8..15 arbitrary */
 static inline void c16_mk_arrhdr(char etype, int len, const struct c16_junk *junk, rtosc_arg_val_t *av)
 {
     memcpy(&av->val, junk->b, sizeof(av->val));
+    av->val.h = 0;
     av->type = 'a';
     rtosc_av_arr_type_set(av, etype);
     rtosc_av_arr_len_set(av, len);
